@@ -743,8 +743,10 @@ def complete_consumption(ctx, report, rule='C08.R10', scope=('cryptoparser/dnsre
             src = ast.unparse(f.node)
             reported = any(('%s.parsed_length' % name) in ast.unparse(v) for v in returned(f.node))
             # a parser handed on to helpers that return nothing either is still this function's responsibility
-            checked = any(isinstance(i, ast.If) and ('%s.unparsed_length' % name) in ast.unparse(i.test) and any(isinstance(x, ast.Raise) for x in ast.walk(i))
-                          for i in ast.walk(f.node))
+            # (the test with locals that are bound once written out: ``rest = parser.unparsed_length; if rest: raise``)
+            from ..astutil import inline_locals
+            checked = any(isinstance(i, ast.If) and ('%s.unparsed_length' % name) in ast.unparse(inline_locals(i.test, f.node)) and
+                          any(isinstance(x, ast.Raise) for x in ast.walk(i)) for i in ast.walk(f.node))
             reads_rest = ('%s.unparsed_length)' % name) in src or ('%s.unparsed)' % name) in src    # a final field that takes the rest
             if not reported and not checked and not reads_rest:
                 report.add(rule, '%s@unread[%s]' % (f.construct, name),
